@@ -1,6 +1,6 @@
 (* Characterisation of the refinement candidates of Local Polynomial grids for all five criteria (C07). *)
 From TV Require Import Common.Prelude Model.IndexSets Model.RuleLocal Model.Selection Model.SelectionAll.
-From TV Require Import Proofs.IndexSetsProofs Proofs.SelectionProofs.
+From TV Require Import Proofs.IndexSetsProofs Proofs.SelectionProofs Proofs.RuleLocalProofs.
 Local Open Scope Z_scope.
 
 (* ---------- the two kinds of proposed points ---------- *)
@@ -309,4 +309,224 @@ Proof.
     + exists k. split; [exact Hk|]. subst p. apply nth_set_nth. exact Hd.
     + subst p. rewrite nth_set_nth by exact Hd. unfold limit_ok in H2. destruct limits as [|l0 lr]; [congruence|].
       apply orb_true_iff in H2. destruct H2 as [H2|H2]; [left|right]; lia.
+Qed.
+
+(* ---------- hierarchy facts needed for the fuel: a parent is non-negative and at a strictly lower level ---------- *)
+Lemma getLevel_nonneg r v : r <> Pwc -> 0 <= getLevel r v.
+Proof.
+  intros Hr. destruct r; try congruence; unfold getLevel, intlog2.
+  - destruct (v =? 0); [lia|]. destruct (v =? 1); [lia|]. destruct (v - 1 <=? 0); [lia|]. pose proof (Z.log2_nonneg (v - 1)). lia.
+  - destruct (v =? 0); [lia|]. destruct (v =? 1); [lia|]. destruct (v - 1 <=? 0); [lia|]. pose proof (Z.log2_nonneg (v - 1)). lia.
+  - destruct (v + 1 <=? 0); [lia|]. apply Z.log2_nonneg.
+  - destruct (v <=? 1); [lia|]. destruct (v - 1 <=? 0); [lia|]. pose proof (Z.log2_nonneg (v - 1)). lia.
+Qed.
+
+Lemma half_cases v : 0 <= v -> exists a, 0 <= a /\ (v = 2 * a \/ v = 2 * a + 1).
+Proof. intros H. exists (v / 2). pose proof (Z.div_mod v 2). pose proof (Z.mod_pos_bound v 2). lia. Qed.
+
+Lemma parent_level_localp v : 1 <= v ->
+  let a := (let dad := Z.quot (v + 1) 2 in if v <? 4 then dad - 1 else dad) in
+  0 <= a /\ getLevel Localp a < getLevel Localp v.
+Proof.
+  intros Hv. cbv zeta.
+  assert (v = 1 \/ v = 2 \/ v = 3 \/ 4 <= v) as [->|[->|[->|H4]]] by lia; try (vm_compute; split; [discriminate|reflexivity]).
+  assert (v <? 4 = false) as -> by lia.
+  destruct (half_cases (v + 1)) as [a [Ha [E|E]]]; [lia| |].
+  - assert (Z.quot (v + 1) 2 = a) as -> by lia.
+    split; [lia|]. assert (v = 2 * a - 1) as -> by lia. unfold getLevel, intlog2.
+    assert (a =? 0 = false) as -> by lia. assert (a =? 1 = false) as -> by lia. assert (a - 1 <=? 0 = false) as -> by lia.
+    assert (2 * a - 1 =? 0 = false) as -> by lia. assert (2 * a - 1 =? 1 = false) as -> by lia. assert (2 * a - 1 - 1 <=? 0 = false) as -> by lia.
+    replace (2 * a - 1 - 1) with (2 * a - 2) by lia. rewrite log2_2p_m2 by lia. lia.
+  - assert (Z.quot (v + 1) 2 = a) as -> by lia.
+    split; [lia|]. assert (v = 2 * a) as -> by lia. unfold getLevel, intlog2.
+    assert (a =? 0 = false) as -> by lia. assert (a =? 1 = false) as -> by lia. assert (a - 1 <=? 0 = false) as -> by lia.
+    assert (2 * a =? 0 = false) as -> by lia. assert (2 * a =? 1 = false) as -> by lia. assert (2 * a - 1 <=? 0 = false) as -> by lia.
+    rewrite log2_2p_m1 by lia. lia.
+Qed.
+
+Lemma parent_level_localp0 v : 1 <= v ->
+  0 <= Z.quot (v - 1) 2 /\ getLevel Localp0 (Z.quot (v - 1) 2) < getLevel Localp0 v.
+Proof.
+  intros Hv. destruct (half_cases (v - 1)) as [a [Ha [E|E]]]; [lia| |].
+  - assert (Z.quot (v - 1) 2 = a) as -> by lia. split; [lia|]. assert (v = 2 * a + 1) as -> by lia.
+    unfold getLevel, intlog2. assert (a + 1 <=? 0 = false) as -> by lia. assert (2 * a + 1 + 1 <=? 0 = false) as -> by lia.
+    replace (2 * a + 1 + 1) with (2 * a + 2) by lia. rewrite log2_2p_p2 by lia. lia.
+  - assert (Z.quot (v - 1) 2 = a) as -> by lia. split; [lia|]. assert (v = 2 * a + 2) as -> by lia.
+    unfold getLevel, intlog2. assert (a + 1 <=? 0 = false) as -> by lia. assert (2 * a + 2 + 1 <=? 0 = false) as -> by lia.
+    replace (2 * a + 2 + 1) with (2 * a + 3) by lia. rewrite log2_2p_p3 by lia. lia.
+Qed.
+
+Lemma parent_level_localpb v : 2 <= v ->
+  0 <= Z.quot (v + 1) 2 /\ getLevel Localpb (Z.quot (v + 1) 2) < getLevel Localpb v.
+Proof.
+  intros Hv.
+  assert (v = 2 \/ v = 3 \/ 4 <= v) as [->|[->|H4]] by lia; try (vm_compute; split; [discriminate|reflexivity]).
+  destruct (half_cases (v + 1)) as [a [Ha [E|E]]]; [lia| |].
+  - assert (Z.quot (v + 1) 2 = a) as -> by lia. split; [lia|]. assert (v = 2 * a - 1) as -> by lia. unfold getLevel, intlog2.
+    assert (a <=? 1 = false) as -> by lia. assert (a - 1 <=? 0 = false) as -> by lia.
+    assert (2 * a - 1 <=? 1 = false) as -> by lia. assert (2 * a - 1 - 1 <=? 0 = false) as -> by lia.
+    replace (2 * a - 1 - 1) with (2 * a - 2) by lia. rewrite log2_2p_m2 by lia. lia.
+  - assert (Z.quot (v + 1) 2 = a) as -> by lia. split; [lia|]. assert (v = 2 * a) as -> by lia. unfold getLevel, intlog2.
+    assert (a <=? 1 = false) as -> by lia. assert (a - 1 <=? 0 = false) as -> by lia.
+    assert (2 * a <=? 1 = false) as -> by lia. assert (2 * a - 1 <=? 0 = false) as -> by lia.
+    rewrite log2_2p_m1 by lia. lia.
+Qed.
+
+(* every existing parent / step-parent of a point of a binary rule is a point one or more levels lower *)
+Lemma parent_numbers_level r v a : binary_rule r -> 0 <= v -> In a (parent_numbers r v) -> a <> -1 ->
+  0 <= a /\ getLevel r a < getLevel r v.
+Proof.
+  intros Hr Hv Ha Hn. unfold parent_numbers in Ha. cbn [In] in Ha.
+  destruct r; try (exfalso; apply Hr; reflexivity).
+  - (* localp *)
+    destruct Ha as [Ha|[Ha|[]]]; [|cbn in Ha; congruence]. subst a. unfold getParent in *.
+    destruct (Z.eq_dec v 0) as [->|N0]; [exfalso; apply Hn; reflexivity|]. apply parent_level_localp. lia.
+  - (* semi-localp *)
+    destruct Ha as [Ha|[Ha|[]]]; subst a.
+    + unfold getParent in *. destruct (Z.eq_dec v 0) as [->|N0]; [exfalso; apply Hn; reflexivity|].
+      change (getLevel Semilocalp) with (getLevel Localp). apply parent_level_localp. lia.
+    + unfold getStepParent in *. destruct (v =? 3) eqn:E3; [assert (v = 3) as -> by lia; vm_compute; split; [discriminate|reflexivity]|].
+      destruct (v =? 4) eqn:E4; [assert (v = 4) as -> by lia; vm_compute; split; [discriminate|reflexivity]|]. congruence.
+  - (* localp0 *)
+    destruct Ha as [Ha|[Ha|[]]]; [|cbn in Ha; congruence]. subst a. unfold getParent in *.
+    destruct (v =? 0) eqn:E0; [congruence|]. apply parent_level_localp0. lia.
+  - (* localpb *)
+    destruct Ha as [Ha|[Ha|[]]]; subst a.
+    + unfold getParent in *. destruct (v <? 2) eqn:E2; [congruence|]. apply parent_level_localpb. lia.
+    + unfold getStepParent in *. destruct (v =? 2) eqn:E2; [assert (v = 2) as -> by lia; vm_compute; split; [discriminate|reflexivity]|]. congruence.
+Qed.
+
+(* ---------- the fuel of the model is sufficient (binary rules, non-negative point numbers) ---------- *)
+Definition nonneg (p : idx) : Prop := Forall (fun v => 0 <= v) p.
+Definition nonneg_set (s : list idx) : Prop := forall p, In p s -> nonneg p.
+
+Lemma total_level_set_nth r : forall p dir a, (dir < length p)%nat ->
+  total_level r (set_nth p dir a) = total_level r p - getLevel r (nth dir p 0) + getLevel r a.
+Proof.
+  unfold total_level. induction p as [|x p IH]; intros [|dir] a H; cbn [length] in H; try lia.
+  - cbn. lia.
+  - cbn [set_nth nth fold_right]. rewrite IH by lia. lia.
+Qed.
+
+Lemma nonneg_nth p : forall dir, nonneg p -> (dir < length p)%nat -> 0 <= nth dir p 0.
+Proof.
+  induction p as [|x p IH]; intros [|dir] Hn H; cbn [length] in H; try lia; inversion Hn; subst; cbn [nth]; auto.
+  apply IH; auto. lia.
+Qed.
+
+Lemma nonneg_set_nth p : forall dir a, nonneg p -> 0 <= a -> nonneg (set_nth p dir a).
+Proof.
+  induction p as [|x p IH]; intros [|dir] a Hn Ha; cbn [set_nth]; auto; inversion Hn; subst; constructor; auto.
+  apply IH; auto.
+Qed.
+
+Lemma total_level_nonneg r p : binary_rule r -> 0 <= total_level r p.
+Proof.
+  intros Hr. unfold total_level. induction p as [|x p IH]; cbn; [lia|]. pose proof (getLevel_nonneg r x Hr). lia.
+Qed.
+
+Lemma parent_of_level r p p' : binary_rule r -> nonneg p -> parent_of r p p' ->
+  nonneg p' /\ total_level r p' < total_level r p.
+Proof.
+  intros Hr Hn [dir [a [Hd [Ha [Hne Hp']]]]]. subst p'.
+  destruct (parent_numbers_level r (nth dir p 0) a Hr (nonneg_nth p dir Hn Hd) Ha Hne) as [H0 Hl].
+  split; [apply nonneg_set_nth; auto|]. rewrite total_level_set_nth by exact Hd. lia.
+Qed.
+
+Definition missing_bound (r : erule) (mset refined : list idx) (k : Z) : Prop :=
+  forall p dir a, In p refined -> (dir < length p)%nat -> In a (parent_numbers r (nth dir p 0)) -> a <> -1 ->
+    mem (set_nth p dir a) refined = false -> mem (set_nth p dir a) mset = false -> total_level r p <= k.
+
+Lemma mem_false_incl d x s1 s2 : length x = d -> wf d s1 -> wf d s2 -> (forall y, In y s1 -> In y s2) ->
+  mem x s2 = false -> mem x s1 = false.
+Proof.
+  intros Hl W1 W2 Hi H2. destruct (mem x s1) eqn:E; [|reflexivity].
+  apply (mem_In d x s1 Hl W1) in E. apply Hi in E. apply (mem_In d x s2 Hl W2) in E. congruence.
+Qed.
+
+Lemma completeToLower_closes d r mset : binary_rule r -> wf d mset -> forall fuel refined k,
+  wf d refined -> sorted refined -> nonneg_set refined -> missing_bound r mset refined k -> (Z.to_nat k < fuel)%nat ->
+  lower_sweep r mset (completeToLower fuel r mset refined) = [].
+Proof.
+  intros Hr Wm. induction fuel as [|f IH]; intros refined k Hw Hs Hnn Hb Hk; [lia|].
+  cbn [completeToLower]. destruct (lower_sweep r mset refined) as [|a0 l0] eqn:E; [exact E|]. rewrite <- E.
+  pose proof (lower_sweep_wf d r mset refined Hw) as Hwa.
+  destruct (sort_unique_spec d _ Hwa) as [Sa [Wa Ia]].
+  set (refined' := merge refined (sort_unique (lower_sweep r mset refined))).
+  assert (Hw' : wf d refined') by (apply merge_wf; auto).
+  assert (Hs' : sorted refined') by (eapply merge_sorted; eauto).
+  assert (Hin' : forall y, In y refined' <-> In y refined \/ In y (lower_sweep r mset refined)).
+  { intros y. unfold refined'. split.
+    - intros H. apply merge_In in H. destruct H as [H|H]; [left; exact H|right; apply Ia; exact H].
+    - intros H. eapply In_merge; eauto. destruct H as [H|H]; [left; exact H|right; apply Ia; exact H]. }
+  (* some point of refined has a missing parent: k >= 1 *)
+  assert (Hk1 : 1 <= k).
+  { assert (In a0 (lower_sweep r mset refined)) as H0 by (rewrite E; left; reflexivity).
+    apply lower_sweep_In in H0. destruct H0 as [p [dir [a [Hp [Hd [Ha [Hne [Hx [M1 M2]]]]]]]]].
+    subst a0. pose proof (Hb p dir a Hp Hd Ha Hne M1 M2) as Hle.
+    destruct (parent_of_level r p (set_nth p dir a) Hr (Hnn p Hp)) as [_ Hlt]; [exists dir, a; auto|].
+    pose proof (total_level_nonneg r (set_nth p dir a) Hr). lia. }
+  apply (IH refined' (k - 1)); auto; [| |lia].
+  - intros y Hy. apply Hin' in Hy. destruct Hy as [Hy|Hy]; [apply Hnn; exact Hy|].
+    apply lower_sweep_In in Hy. destruct Hy as [p [dir [a [Hp [Hd [Ha [Hne [Hx _]]]]]]]].
+    apply (parent_of_level r p y Hr (Hnn p Hp)). exists dir, a. auto.
+  - intros p dir a Hp Hd Ha Hne M1 M2. apply Hin' in Hp.
+    assert (Hlp : length p = d).
+    { destruct Hp as [Hp|Hp]; [unfold wf in Hw; rewrite Forall_forall in Hw; auto|unfold wf in Hwa; rewrite Forall_forall in Hwa; auto]. }
+    assert (Hlx : length (set_nth p dir a) = d) by (rewrite set_nth_length; exact Hlp).
+    destruct Hp as [Hp|Hp].
+    + (* an old point: its missing parent was added by this pass *)
+      exfalso. assert (In (set_nth p dir a) (lower_sweep r mset refined)) as Hin.
+      { apply lower_sweep_In. exists p, dir, a. repeat split; auto.
+        apply (mem_false_incl d _ refined refined'); auto. intros y Hy. apply Hin'. left. exact Hy. }
+      assert (In (set_nth p dir a) refined') as Hin2 by (apply Hin'; right; exact Hin).
+      apply (mem_In d _ refined' Hlx Hw') in Hin2. congruence.
+    + (* a point added by this pass: one level below a point that had a missing parent *)
+      apply lower_sweep_In in Hp. destruct Hp as [p0 [dir0 [a0' [Hp0 [Hd0 [Ha0 [Hne0 [Hx0 [N1 N2]]]]]]]]].
+      subst p. pose proof (Hb p0 dir0 a0' Hp0 Hd0 Ha0 Hne0 N1 N2) as Hle.
+      destruct (parent_of_level r p0 (set_nth p0 dir0 a0') Hr (Hnn p0 Hp0)) as [_ Hlt]; [exists dir0, a0'; auto|]. lia.
+Qed.
+
+Lemma total_level_le_max r s p : In p s -> total_level r p <= fold_right (fun p acc => Z.max (total_level r p) acc) 0 s.
+Proof. induction s as [|q s IH]; intros H; [destruct H|]. cbn. destruct H as [->|H]; [lia|]. apply IH in H. lia. Qed.
+
+Lemma getKid_nonneg r v k : binary_rule r -> 0 <= v -> In k (kid_numbers r) -> getKid r v k <> -1 -> 0 <= getKid r v k.
+Proof.
+  intros Hr Hv Hk Hn. assert (k = 0 \/ k = 1) as Hk01.
+  { destruct r; try (exfalso; apply Hr; reflexivity); vm_compute in Hk; intuition lia. }
+  destruct r; try (exfalso; apply Hr; reflexivity); unfold getKid in *;
+    destruct Hk01 as [-> | ->]; cbn [Z.eqb] in *;
+    repeat match goal with
+           | |- context [if ?b then _ else _] => destruct b eqn:?
+           | H : context [if ?b then _ else _] |- _ => destruct b eqn:?
+           end; lia.
+Qed.
+
+Lemma proposed_nonneg r limits pts pmap up p : binary_rule r -> nonneg_set pts -> proposed r limits pts pmap up p -> nonneg p.
+Proof.
+  intros Hr Hnn [q [dir [Hq [Hd [_ H]]]]]. pose proof (nonneg_nth q dir (Hnn q Hq) Hd) as Hv.
+  destruct H as [[_ [a [Ha [Hne [Hp _]]]]]|[_ [k [Hk [Hne [_ [Hp _]]]]]]]; subst p; apply nonneg_set_nth; auto.
+  - apply (parent_numbers_level r (nth dir q 0) a Hr Hv Ha Hne).
+  - apply getKid_nonneg; auto.
+Qed.
+
+(* for the four binary rules the loop of completeToLower always stops by itself within the model's fuel *)
+Theorem stable_fuel_sufficient d r limits pts pmap up : binary_rule r -> wf d pts -> nonneg_set pts ->
+  lower_closed r pts (candidates r limits pts pmap up true) = true.
+Proof.
+  intros Hr Hw Hnn. destruct (candidates_spec d r limits pts pmap up Hw) as [S0 [W0 I0]].
+  unfold lower_closed, candidates in *.
+  set (result := sort_unique (raw_candidates r limits pts pmap up)) in *.
+  rewrite (completeToLower_closes d r pts Hr Hw (lower_fuel r result) result
+             (fold_right (fun p acc => Z.max (total_level r p) acc) 0 result)); auto.
+  - intros p Hp. apply (proposed_nonneg r limits pts pmap up); auto. apply I0. exact Hp.
+  - intros p dir a Hp _ _ _ _ _. apply total_level_le_max. exact Hp.
+  - unfold lower_fuel. lia.
+Qed.
+
+Theorem stable_parents_present_binary d r limits pts pmap up : binary_rule r -> wf d pts -> nonneg_set pts ->
+  forall p p', In p (candidates r limits pts pmap up true) -> parent_of r p p' ->
+               In p' pts \/ In p' (candidates r limits pts pmap up true).
+Proof.
+  intros Hr Hw Hnn. apply (stable_parents_present d); auto. apply (stable_fuel_sufficient d); auto.
 Qed.
